@@ -1,12 +1,12 @@
 package harness
 
 import (
-	"hash/fnv"
 	"bytes"
 	"context"
 	"encoding/json"
 	"errors"
 	"fmt"
+	"hash/fnv"
 	"io"
 	"log/slog"
 	"net"
@@ -115,6 +115,9 @@ type pairState struct {
 	// referenced integration was unwound (known finding F30): its rows may be
 	// incomplete, so row comparisons are not judged for it any more
 	lookupsUnreliable bool
+	// unreliable: block numbers whose rows were written by such a step
+	unreliable       map[int64]bool
+	staleRefReported bool
 }
 
 type curChange struct {
@@ -213,6 +216,7 @@ type World struct {
 	pendingJump  time.Duration
 	wsConns      []*wsConn
 	earlySeen    map[string]int
+	lateSeen     map[string]bool
 	outcomeQ     []outcomeRec
 	onHookEvent  func(name string, kv ...any)
 	projCache    map[string][]string
@@ -888,11 +892,20 @@ func runBubble(t *testing.T, w *World, res *Result, extra Extra, keepLog bool) {
 				w.srv.OnExecute = func(connID int, owner, sql string, params []fakepg.Value, tx *fakepg.Tx) {
 					if strings.Contains(sql, "select true from") {
 						snap := w.srv.DB.Snapshot()
-						n := 0
-						if ts := snap.Table("public.t_ref0"); ts != nil {
-							n = len(ts.Rows)
+						var hits []string
+						for _, tn := range []string{"public.t_ref0", "public.t_ref1", "public.t_refs"} {
+							ts := snap.Table(tn)
+							if ts == nil {
+								continue
+							}
+							ci, bi, ii := ts.Col("c_pool"), ts.Col("block_num"), ts.Col("ig_name")
+							for _, r := range ts.Rows {
+								if b, ok := r.Vals[ci].([]byte); ok && fmt.Sprintf("%x", b) == fmt.Sprintf("%x", params[0]) {
+									hits = append(hits, fmt.Sprintf("%s:%v@%v", tn, r.Vals[ii], r.Vals[bi]))
+								}
+							}
 						}
-						w.sched.Log.Add("%d DEBUG lookup %s param=%x committed t_ref0 rows=%d", w.step, owner, params[0], n)
+						w.sched.Log.Add("%d DEBUG lookup %s param=%x committed hits=%v", w.step, owner, params[0], hits)
 					}
 				}
 			}
